@@ -198,6 +198,28 @@ fn run_case_inner(spec: &CheckSpec, case: &Case, root: &Path, prepare: bool) -> 
                     e.snaps.iter().map(|s| s.s).collect::<Vec<_>>(),
                     crate::util::list_files(&e.dir),
                 );
+                if e.is_blob() {
+                    for table in v.iter_tables() {
+                        for it in table.iter().flatten() {
+                            if it.key.value_type == lsm_tree::ValueType::Indirection {
+                                println!(
+                                    "   PTR table {} key {} seq {} -> {:?}",
+                                    table.id(),
+                                    crate::util::hex(&it.key.user_key),
+                                    it.key.seqno,
+                                    crate::blob::decode_pointer(&it.value)
+                                );
+                            }
+                        }
+                    }
+                    for bf in v.blob_files.iter() {
+                        if let Ok(fr) = crate::blob::parse_blob_file(bf.path()) {
+                            for f in fr {
+                                println!("   FRAME file {} off {} key {} seq {} len {}", bf.id(), f.offset, crate::util::hex(&f.key), f.seqno, f.real_len);
+                            }
+                        }
+                    }
+                }
             }
             r.map_err(|w| fail(i, format!("tree#{ti} op {op:?}: {w}")))?;
             crate::audit::after_op(e).map_err(|w| fail(i, format!("tree#{ti} after op {op:?}: {w}")))?;
